@@ -410,7 +410,9 @@ class MapUpdateClause(ContainerUpdateClause):
     def is_assignment(self):
         if not self._analyzed:
             self._analyze()
-        return self.previous is None and not self._updates and not self._removals
+        # only a plain assignment may replace the whole map: an "update"/"remove" operation with
+        # an empty operand adds/removes nothing (and must not clear the column)
+        return self._operation is None and self.previous is None and not self._updates and not self._removals
 
     def __unicode__(self):
         qs = []
